@@ -58,16 +58,19 @@ func c20Concurrent(threads int) vs.Verdict {
 		<-done
 	}
 	// ---- invariants at quiescence
-	st.mu.Lock()
-	n, total := st.nBytes, 0
+	n, _ := c20Totals(st)
+	total := 0
 	retained := map[string][]string{}
-	for stream, dl := range st.store["s"] {
-		for _, d := range dl.data {
+	for _, k := range c20Streams(st, [][2]string{{"s", "a"}, {"s", "b"}}) {
+		_, items, _, _ := c20View(st, k[0], k[1], len(ops))
+		for _, d := range items {
 			total += len(d)
-			retained[stream] = append(retained[stream], string(d))
+			retained[k[1]] = append(retained[k[1]], string(d))
 		}
 	}
-	st.mu.Unlock()
+	if n < 0 {
+		n = total // the store's own count is not observable in the black-box view
+	}
 	if n != total {
 		f.failf("byte-accounting", "the store accounts for %d bytes but retains %d", n, total)
 	}
